@@ -148,14 +148,46 @@ def sea_cases(out: Outcome, rng, n_cases: int, lines, expect) -> None:
 
 
 class FakeResponse:
-    def __init__(self, ok, status_ok=True, content=b"", content_error=None):
+    """a scripted `requests.Response`: everything a reasonable implementation may use to read the body or the status (content, iter_content, text, raw,
+    status_code, reason, headers, url, close, context manager), so that a harmless rewrite of the download code is not mistaken for a defect"""
+
+    def __init__(self, ok, status_ok=True, content=b"", content_error=None, url=""):
         self.ok, self._status_ok, self._content, self._content_error = ok, status_ok, content, content_error
+        self.status_code = 200 if (ok and status_ok) else 503
+        self.reason = "OK" if self.status_code == 200 else "Service Unavailable"
+        self.headers = {"Content-Length": str(len(content))}
+        self.url = url
+        self.encoding = "utf-8"
 
     @property
     def content(self):
         if self._content_error is not None:
             raise self._content_error
         return self._content
+
+    @property
+    def text(self):
+        return self.content.decode("utf-8", "replace")
+
+    def iter_content(self, chunk_size=1, decode_unicode=False):
+        data = self.content
+        step = chunk_size or len(data) or 1
+        for i in range(0, len(data), step):
+            yield data[i: i + step]
+
+    @property
+    def raw(self):
+        import io
+        return io.BytesIO(self.content)
+
+    def close(self):
+        pass
+
+    def __enter__(self):
+        return self
+
+    def __exit__(self, *a):
+        return False
 
     def raise_for_status(self):
         if not self._status_ok:
@@ -164,6 +196,7 @@ class FakeResponse:
 
 # further ways a mirror can be unreachable: every one is a requests.exceptions.RequestException and must fall through
 # to the next mirror exactly like a connection error (the model's alphabet maps them all to `c`)
+STALL_AT = ["get"]
 EXTRA_MODES = {
     "r": ("head", requests.exceptions.TooManyRedirects("loop")),
     "R": ("get", requests.exceptions.TooManyRedirects("loop")),
@@ -176,13 +209,26 @@ EXTRA_MODES = {
 }
 
 
+NO_TIMEOUT: list = []      # requests issued WITHOUT a timeout: a mirror that accepts the connection and stalls would block such a call for ever
+
+
 def fake_network(plan):
-    """scripted requests.head / requests.get for the mirror plan {url: mode}"""
+    """scripted requests.head / requests.get for the mirror plan {url: mode}.  Mode "S" (stall): the mirror accepts and never answers - a request that carries a
+    timeout ends with `requests.exceptions.Timeout`, one without would never return (recorded in NO_TIMEOUT, reported by the caller)."""
     contacted = []
+
+    def stalls(url, timeout, what):
+        if timeout is None:
+            NO_TIMEOUT.append((what, url))
+        raise requests.exceptions.ReadTimeout("stalled")
 
     def head(url, timeout=None, **kw):
         contacted.append(url)
         m = plan[url]
+        if timeout is None:
+            NO_TIMEOUT.append(("HEAD", url))
+        if m == "S" and STALL_AT[0] == "head":
+            stalls(url, timeout, "HEAD")
         if m == "c":
             raise requests.exceptions.ConnectionError("down")
         if m == "t":
@@ -193,6 +239,10 @@ def fake_network(plan):
 
     def get(url, stream=None, timeout=None, **kw):
         m = plan[url]
+        if timeout is None:
+            NO_TIMEOUT.append(("GET", url))
+        if m == "S":
+            stalls(url, timeout, "GET")
         if m in EXTRA_MODES and EXTRA_MODES[m][0] == "get":
             raise EXTRA_MODES[m][1]
         cerr = EXTRA_MODES[m][1] if m in EXTRA_MODES and EXTRA_MODES[m][0] == "content" else None
@@ -287,9 +337,10 @@ class HistMirrors(BaseDatasetDownload):
 def history_cases(out: Outcome, rng, lines, expect, n_cases: int) -> None:
     """histories of download()/load() on ONE dataset object, with the target file missing, empty or already holding
     bytes: a successful download must leave exactly the first reachable mirror's bytes (nothing appended, nothing kept)"""
-    modes = ["c", "h", "g", "t", "ok"] + list(EXTRA_MODES)
+    modes = ["c", "h", "g", "t", "ok"] + list(EXTRA_MODES) + ["S"]
     real_head, real_get = requests.head, requests.get
     old = b"OLD-CONTENT"
+    del NO_TIMEOUT[:]
     try:
         for case in range(n_cases):
             k = rng.randint(1, 3)
@@ -360,13 +411,24 @@ def history_cases(out: Outcome, rng, lines, expect, n_cases: int) -> None:
                             out.violation(f"load() raised {type(e).__name__}", rep)
             have = open(path, "rb").read() if os.path.exists(path) else None
             final = f"{int(ds.file_path is not None)} {tok(have, urls, old)}"
+            # object lifetime: what was downloaded to the caller's own path belongs to the caller - it is still there when the dataset object is gone
+            if have is not None and not loaded:
+                import gc
+                del ds
+                gc.collect()
+                if not os.path.exists(path) or open(path, "rb").read() != have:
+                    out.violation(f"download(): the file downloaded to the caller's path is gone or changed once the dataset object has been collected (history {rep['ops']})", rep)
             if os.path.exists(path):
                 os.unlink(path)
             lines.append("dh " + {"none": "none", "empty": "f:", "old": "f:99"}[init] + " " +
-                         " ".join(("d:" + ",".join("ok:" + str(i) if m == "ok" else (m if m in "chgt" else "c") for i, m in enumerate(a))) if o == "d" else ("l:" + str(int(a)))
+                         " ".join(("d:" + ",".join("ok:" + str(i) if m == "ok" else (m if m in ("c", "h", "g", "t") else "c") for i, m in enumerate(a))) if o == "d" else ("l:" + str(int(a)))
                                   for o, a in ops))
             expect.append((" ".join(outs) + " | " + final, rep))
             out.case(rep)
+        if NO_TIMEOUT:
+            what, url = NO_TIMEOUT[0]
+            out.violation(f"download(): a {what} request is issued without a timeout ({len(NO_TIMEOUT)} such requests): a mirror that accepts the connection and stalls "
+                          "blocks the download for ever and the next mirror is never tried", {"kind": "no timeout", "request": what})
     finally:
         requests.head, requests.get = real_head, real_get
 
